@@ -8,13 +8,25 @@ Decided:
          SignedCookieMiddleware.request -> load_cookie -> JSONCookie.unserialize -> super().unserialize some
          clastic frame must catch Exception/ValueError, must not re-raise, and must yield an empty cookie;
   R16.b  JSONCookie.unquote is total: every call in it is under ``except Exception`` raising UnquoteError
-         (the exception the dependency's MAC-then-unquote loop expects);
+         (the exception the dependency's MAC-then-unquote loop expects); quote() and unquote() are the two halves of
+         one codec / serializer / charset; quote() is total on every value unquote() can return: it has no escaping
+         ``raise``, and each text -> bytes step is total on the class of text that reaches it (the serializer's output
+         is 'ascii' unless ensure_ascii is switched off, then 'any str, unpaired surrogates included'; a strict
+         encode of the latter is a violation, a non-strict error handler or an enclosing handler discharges it);
   R16.c  MAC before use (dependency): cls.unquote and the _expires comparison are dominated by the
          safe_str_cmp(client_hash, mac.digest()) test; JSONCookie overrides neither hash_method nor
          serialize, and its unserialize delegates to super with the same secret_key;
   R16.d  key plumbing: load_cookie gets self.secret_key / self.cookie_name; secret_key is the constructor
          argument or os.urandom; the cookie is provided under arg_name (= provides); save_cookie runs on the
          next() result on every normal path; _expires is stamped only when absent and expiry is numeric.
+  R16.e  per-request state: no write of request() (attribute / item store, delete, mutating method call, global
+         assignment; in the method itself or in a method of the class it calls) goes to an object that outlives the call --
+         the middleware object, its class, a module-level container, a mutable default, or anything reached through
+         them, under whatever local name (aliases are followed through reaching definitions; copies are new objects) --
+         unless the write is request-independent and idempotent (a cache of configuration): neither the operands nor
+         the path conditions derive from the request, the cookie or the response.  The ``**mapping`` given to save_cookie
+         may be kept on the middleware (built by the constructor, then followed there) as long as request() only reads
+         or copies it.
 Declined: cryptographic strength, JSON round-trip fidelity, clock behaviour around the expiry instant.
 
 Constructs are recognised by role, not by spelling: values are followed through single-assignment locals and
@@ -26,9 +38,9 @@ import codecs
 
 from ..core import AnalysisError, norm, short
 from ..astutil import argn, assigned_value
-from ..layers import layers_of_var, layers_of_expr
+from ..layers import layers_of_var, layers_of_expr, layers_of_value
 from .common import (cfg_of, fkey, conds, has_cond, cond_texts, stmts_of, walk_body, call_tail, call_name,
-                     returns_of, raise_type, protected_by, stmt_of, handler_reraises_always)
+                     returns_of, raises_of, raise_type, protected_by, stmt_of, handler_reraises_always)
 from .c15 import next_derived
 
 COOKIE = 'clastic.middleware.cookie'
@@ -61,10 +73,13 @@ class _Ctx(object):
 
 
 def run(rep):
-    rep.decide('R16.a malformed cookies cannot raise out of the load; R16.b unquote total; R16.c MAC dominates use; '
-               'R16.d key plumbing, provide-under-name, save on every path')
+    rep.decide('R16.a malformed cookies cannot raise out of the load; R16.b unquote total, quote total on what unquote returns, '
+               'codec agreement; R16.c MAC dominates use; R16.d key plumbing, provide-under-name, save on every path; '
+               'R16.e nothing request() learns from one request is written into an object shared with the next')
     rep.decline('cryptographic strength; JSON round-trip fidelity; clock behaviour at the expiry instant')
     rep.assume('binascii.Error and UnicodeDecodeError are ValueError subclasses (CPython)')
+    rep.assume('json.loads returns str values with unpaired surrogates for escapes such as "\\ud83d"; json.dumps emits ASCII only '
+               'unless ensure_ascii is false; str.encode with the strict handler raises on unpaired surrogates for every codec')
     rep.assume('secure-cookie 0.1.0 as parsed from site-packages/secure_cookie/cookie.py')
     try:
         cx = _Ctx(rep)
@@ -72,7 +87,7 @@ def run(rep):
         raise
     except Exception as e:
         raise AnalysisError('cookie module: anchors not recognised (%s: %s)' % (type(e).__name__, e))
-    for group in (rule_a, rule_b, rule_c, rule_d):
+    for group in (rule_a, rule_b, rule_c, rule_d, rule_e):
         rep.guard(_no_crash(group), rep, cx)
 
 
@@ -280,9 +295,10 @@ def rule_b(rep, cx):
     rep.check('R16.b', '%s::JSONCookie quote/unquote codec' % COOKIE, ok, 'quote() and unquote() use matching halves of one codec (%s / %s)' % (encs, decs) if ok else
               'quote() encodes with %s but unquote() decodes with %s: values whose encoding differs between the two alphabets are silently '
               'dropped (the whole cookie is discarded as unquotable)' % (encs, decs), ck, qf.node)
-    sers = [_receiver(qf, jc, c) for c in walk_body(qf.node) if isinstance(c, ast.Call) and call_tail(c) == 'dumps'] + \
-        [_receiver(uq, jc, c) for c in walk_body(uq.node) if isinstance(c, ast.Call) and call_tail(c) == 'loads']
-    ok = len(sers) == 2 and sers[0] == sers[1]
+    sers_q = [_receiver(qf, jc, c) for c in walk_body(qf.node) if isinstance(c, ast.Call) and call_tail(c) == 'dumps']
+    sers_u = [_receiver(uq, jc, c) for c in walk_body(uq.node) if isinstance(c, ast.Call) and call_tail(c) == 'loads']
+    sers = sers_q + sers_u
+    ok = bool(sers_q) and bool(sers_u) and len(set(sers)) == 1
     rep.check('R16.b', '%s::JSONCookie quote/unquote serializer' % COOKIE, ok, 'dumps / loads come from the same serialization module' if ok else
               'quote() and unquote() use different serializers: %s' % sers, ck, qf.node)
     charsets = set(_charset(cx, c) for f_ in (qf, uq) for c in walk_body(f_.node)
@@ -292,6 +308,143 @@ def rule_b(rep, cx):
     k, m, ue = repo.resolve(ck, 'UnquoteError')
     rep.check('R16.b', '%s::UnquoteError' % COOKIE, k == 'class' and m is dep, 'UnquoteError is the dependency\'s own class' if k == 'class' and m is dep else
               'UnquoteError is not the class secure_cookie catches', ck)
+    _quote_total(rep, cx, qf, jc)
+
+
+# quote() is total on everything unquote() can hand to the application: the text the serializer produces is put into
+# one of two classes ('ascii': only code points < 128; 'any': arbitrary str, unpaired surrogates included -- what
+# json.loads returns for "\ud83d") and every text -> bytes step must be total on the class that reaches it.
+ASCII_SUPERSETS = {'utf-8', 'utf-8-sig', 'ascii', 'iso8859-1', 'cp1252', 'utf-16', 'utf-16-le', 'utf-16-be', 'utf-32', 'utf-32-le', 'utf-32-be'}
+TOTAL_HANDLERS = {'replace', 'ignore', 'backslashreplace', 'xmlcharrefreplace', 'namereplace'}
+JSON_MODULES = ('json', 'simplejson')
+STR_TO_STR = ('strip', 'lstrip', 'rstrip')
+
+
+def _quote_total(rep, cx, qf, jc):
+    from ..effects import Flow
+    ck = cx.ck
+    fl = Flow(qf)
+    for r in raises_of(qf):
+        t = raise_type(r)
+        h = protected_by(qf, r, t) or protected_by(qf, r, 'Exception') if t is not None else None
+        ok = h is not None and not any(isinstance(s, ast.Raise) for s in ast.walk(h))
+        rep.check('R16.b', fkey(qf, r), ok, 'raised and handled inside quote()' if ok else
+                  'quote() raises (%s): save_cookie() fails after the endpoint has run -- error response, the stored data is lost'
+                  % short(r, 60), ck, r)
+    for c in walk_body(qf.node):
+        enc = _encode_step(c)
+        if enc is None:
+            continue
+        text, a_cs, a_err = enc
+        at = stmt_of(ck, c)
+        cls_ = _text_class(cx, fl, qf, jc, text, at)
+        if cls_ is None:
+            continue        # not serializer output (the serializer / codec obligations speak about that)
+        charset = _charset_of(cx, a_cs)
+        errors = 'strict' if a_err is None else cx.fold(_follow(qf, a_err))
+        if not isinstance(errors, str) or charset is None:
+            raise AnalysisError('JSONCookie.quote: cannot decide the charset / error handler of %s' % short(c, 60))
+        h = protected_by(qf, c, 'UnicodeEncodeError')
+        handled = h is not None and not any(isinstance(s, ast.Raise) for s in ast.walk(h))
+        if handled:
+            ok, why = True, 'an encoding failure is handled inside quote()'
+        elif errors in TOTAL_HANDLERS:
+            ok, why = True, 'error handler %r makes the encoding step total' % errors
+        elif cls_ == 'ascii':
+            if charset not in ASCII_SUPERSETS:
+                raise AnalysisError('JSONCookie.quote: cannot decide whether charset %s encodes every ASCII text' % charset)
+            ok, why = True, 'the serializer emits ASCII only (ensure_ascii), which %s always encodes' % charset
+        elif errors == 'surrogatepass' and charset.startswith('utf-'):
+            ok, why = True, 'surrogatepass: %s encodes every str' % charset
+        else:
+            ok, why = False, ('the serializer is told not to escape non-ASCII text (ensure_ascii off), so a stored string with an unpaired '
+                              'surrogate (what unquote() returns for "\\ud83d") makes %s raise UnicodeEncodeError inside save_cookie(), after the '
+                              'endpoint has run: error response, no Set-Cookie, the stored data is lost' % short(c, 50))
+        rep.check('R16.b', fkey(qf, 'quote is total: %s' % norm(c.func)), ok, why, ck, c)
+
+
+def _encode_step(c):
+    """(text expr, encoding expr, errors expr) of a str -> bytes step: ``t.encode(..)``, ``bytes(t, ..)``,
+    ``codecs.encode(t, ..)``, ``str.encode(t, ..)``; None for any other node."""
+    if not isinstance(c, ast.Call) or any(isinstance(a, ast.Starred) for a in c.args) or any(k.arg is None for k in c.keywords):
+        return None
+    f = c.func
+    if isinstance(f, ast.Attribute) and f.attr == 'encode':
+        if norm(f.value) in ('codecs', 'str'):
+            return (c.args[0], argn(c, 'encoding', 1), argn(c, 'errors', 2)) if c.args else None
+        return f.value, argn(c, 'encoding', 0), argn(c, 'errors', 1)
+    if isinstance(f, ast.Name) and f.id == 'bytes' and c.args and (len(c.args) > 1 or c.keywords):
+        return c.args[0], argn(c, 'encoding', 1), argn(c, 'errors', 2)
+    return None
+
+
+def _charset_of(cx, a):
+    if a is None:
+        return 'utf-8'
+    v = cx.fold(a)
+    if isinstance(v, str):
+        try:
+            return codecs.lookup(v).name
+        except LookupError:
+            return None
+    return None
+
+
+def _text_class(cx, fl, fi, jc, e, at, depth=0):
+    """'ascii' / 'any': the class of text the serializer's output reaching ``e`` (evaluated at statement ``at``) is in;
+    None when no serializer output reaches it.  AnalysisError when it does, in a way that is not followed."""
+    out = set()
+    for lf in fl.leaves(e, at):
+        v = lf.value
+        if isinstance(v, ast.Call) and isinstance(v.func, ast.Attribute) and v.func.attr in STR_TO_STR and depth < 6:
+            c = _text_class(cx, fl, fi, jc, v.func.value, lf.stmt, depth + 1)
+        elif isinstance(v, ast.Call) and call_tail(v) == 'dumps' and _receiver(fi, jc, v) in JSON_MODULES:
+            ea = _ensure_ascii(cx, fi, v)
+            if ea is None:
+                raise AnalysisError('JSONCookie.quote: cannot decide the ensure_ascii argument of %s' % short(v, 60))
+            c = 'ascii' if ea else 'any'
+        elif any(isinstance(n, ast.Call) and call_tail(n) == 'dumps' for n in ast.walk(v)):
+            raise AnalysisError('JSONCookie.quote: serializer output reaches %s through %s, which is not followed' % (short(e, 30), short(v, 50)))
+        else:
+            c = None
+        if c is not None:
+            out.add(c)
+    if not out:
+        return None
+    return 'any' if 'any' in out else 'ascii'
+
+
+def _ensure_ascii(cx, fi, call):
+    """What json.dumps is told about escaping: True (the default) / False; None when it cannot be decided."""
+    if any(isinstance(a, ast.Starred) for a in call.args):
+        return None
+    for k in call.keywords:
+        if k.arg == 'ensure_ascii':
+            v = cx.fold(_follow(fi, k.value))
+            return bool(v) if v is not _NOFOLD and not isinstance(v, ast.AST) else None
+    for k in call.keywords:
+        if k.arg is not None:
+            continue
+        v = cx.fold(k.value)
+        if isinstance(v, dict):
+            if 'ensure_ascii' in v:
+                return bool(v['ensure_ascii'])
+            continue
+        try:
+            layers = layers_of_value(fi.node, k.value)
+        except AnalysisError:
+            return None
+        for l in layers:
+            if l.keys is None:
+                lv = cx.fold(l.node) if isinstance(l.node, ast.expr) else _NOFOLD
+                if not isinstance(lv, dict):
+                    return None
+                if 'ensure_ascii' in lv:
+                    return bool(lv['ensure_ascii'])
+            elif 'ensure_ascii' in l.keys:
+                x = cx.fold(l.values['ensure_ascii']) if l.values.get('ensure_ascii') is not None else _NOFOLD
+                return bool(x) if x is not _NOFOLD else None
+    return True
 
 
 def _opaque_calls(cx, ci, fi):
@@ -575,9 +728,12 @@ def _saved_under(cx, fi, call):
             layers = layers_of_var(fi.node, src.id)
         else:
             layers = layers_of_expr(src)
+        undecided = None
         for l in layers:
             if l.keys is not None:
-                if 'key' in l.keys and not (l.below and val is not None):
+                if 'key' in l.keys and not l.below:
+                    val, undecided = norm(l.values['key']), None      # whatever was below it, this entry wins
+                elif 'key' in l.keys and val is None and undecided is None:
                     val = norm(l.values['key'])
                 continue
             # a layer of unknown content: an item assignment with a non-literal key is harmless if the key folds to
@@ -587,8 +743,85 @@ def _saved_under(cx, fi, call):
                 ks = [cx.fold(t.slice) for t in nd_.targets if isinstance(t, ast.Subscript)]
                 if ks and all(isinstance(x, str) and x != 'key' for x in ks):
                     continue
-            raise AnalysisError('save_cookie arguments: cannot decide the entries of %s' % l.text)
+            # a mapping the middleware object keeps (``self.<attr>``, built once by the constructor), or a copy of it
+            built = _constructor_built(cx, fi, nd_)
+            if built is not None:
+                for text, below in built:
+                    if not below:
+                        val, undecided = text, None
+                    elif val is None and undecided is None:
+                        val = text
+                continue
+            undecided = l.text       # only matters when no later layer sets the entry
+        if undecided is not None:
+            raise AnalysisError('save_cookie arguments: cannot decide the entries of %s' % undecided)
     return val
+
+
+def _constructor_built(cx, fi, src):
+    """[(request-time text of the ``key`` entry, set-only-if-missing)] for the layers of a mapping kept in ``self.<attr>``
+    that give a cookie name, when ``src`` is that attribute or a shallow copy of it and the attribute is bound and filled
+    by the constructor only.  None: ``src`` is something else / the attribute's entries cannot be decided."""
+    from ..effects import effects_in
+    e = src
+    for _ in range(4):
+        if isinstance(e, ast.Name):
+            e = _follow(fi, e)
+        if isinstance(e, ast.Call) and isinstance(e.func, ast.Attribute) and e.func.attr == 'copy' and not e.args and not e.keywords:
+            e = e.func.value
+        elif isinstance(e, ast.Call) and norm(e.func) in ('copy.copy', 'copy.deepcopy', 'dict') and len(e.args) == 1 and not e.keywords:
+            e = e.args[0]
+    if not (isinstance(e, ast.Attribute) and norm(e.value) == 'self'):
+        return None
+    mw, var = cx.ck.cls('SignedCookieMiddleware'), norm(e)
+    init = mw.methods.get('__init__')
+    if init is None:
+        return None
+    for m in mw.methods.values():
+        if m is not init and any(ef.chain and ef.chain[:2] == ['self', e.attr] for ef in effects_in(m.node)):
+            return None         # also written outside the constructor
+    try:
+        layers = layers_of_var(init.node, var)
+    except AnalysisError:
+        return None
+    if not layers or any(l.keys is None for l in layers):
+        return None
+    out = []
+    for l in layers:
+        if 'key' in l.keys:
+            v = l.values.get('key')
+            at = l.node if isinstance(l.node, ast.stmt) else stmt_of(cx.ck, l.node)
+            out.append((_request_time_text(mw, init, v, at) if v is not None and at is not None else None, l.below))
+    return out
+
+
+def _request_time_text(mw, init, v, at):
+    """Text, valid in the other methods, of the value expression ``v`` has when the constructor evaluates it at statement
+    ``at``: ``self.a`` itself, or the ``self.a`` the constructor stores the same local into -- provided self.a is bound by
+    the constructor only, and not again after ``at``.  Anything else keeps its own (constructor-local) text."""
+    from ..effects import effects_in, Flow
+    fl = Flow(init)
+    cfg = cfg_of(init)
+    later = cfg.reach([m for n in cfg.nodes_of(at) for m in cfg.succ[n]])
+
+    def stable(attr):
+        for m in mw.methods.values():
+            for ef in effects_in(m.node):
+                if ef.chain and ef.chain[:2] == ['self', attr]:
+                    st = ef.node if isinstance(ef.node, ast.stmt) else stmt_of(init.mod, ef.node)
+                    if m is not init or len(ef.chain) > 2 or ef.kind != 'store' or set(cfg.nodes_of(st)) & later:
+                        return False
+        return True
+    if isinstance(v, ast.Attribute) and norm(v.value) == 'self':
+        return norm(v) if stable(v.attr) else norm(v) + ' (as it was during construction)'
+    if isinstance(v, ast.Name):
+        mine = set(id(d.stmt) for d in fl.reaching(v.id, at))
+        for st in stmts_of(init.node):
+            if isinstance(st, ast.Assign) and isinstance(st.value, ast.Name) and st.value.id == v.id and len(st.targets) == 1 \
+                    and isinstance(st.targets[0], ast.Attribute) and norm(st.targets[0].value) == 'self':
+                if set(id(d.stmt) for d in fl.reaching(v.id, st)) == mine and stable(st.targets[0].attr):
+                    return norm(st.targets[0])
+    return norm(v) + ' (constructor value)'
 
 
 def _stamps(cx, fi, cvar):
@@ -685,3 +918,225 @@ def _handlers_text(mod, fi, node):
         if part == 'body':
             out.append(' / '.join('except ' + (norm(h.type) or '<bare>') for h in tr.handlers))
     return '; '.join(out)
+
+
+# ---------------------------------------------------------------------------------------------- R16.e
+# One middleware object serves every client.  What a request() activation learns from its request (the cookie, its
+# expiry, the response) may only be put into objects of that activation; a write into the middleware object, its class,
+# a module-level container, or anything reached through them is state the next client's request starts from.
+FRESH, ELEMS, SHARED = 0, 1, 2          # the object itself is new / new, but holds shared objects / outlives the call
+ELEMENT_OF = ('get', 'setdefault', 'pop', 'popitem', '__getitem__')
+VIEW_OF = ('values', 'items', 'keys', 'copy', '__iter__')
+IDEMPOTENT_CALLS = ('update', 'setdefault', 'add', 'discard', 'clear')
+SHALLOW_COPIES = ('copy.copy', 'dict', 'list', 'set', 'tuple', 'frozenset', 'sorted', 'reversed', 'iter', 'enumerate', 'OrderedDict')
+
+
+class _Activation(object):
+    """One method of the middleware class: which of its expressions denote objects that outlive the call, and which
+    values depend on the request being served."""
+
+    def __init__(self, cx, fi, shared_params=(), stack=()):
+        from ..effects import Flow
+        self.cx, self.fi, self.fl = cx, fi, Flow(fi)
+        self.params = set(fi.params())
+        a = fi.node.args
+        for x in (a.vararg, a.kwarg):
+            if x is not None:
+                self.params.add(x.arg)
+        self.shared_params = set(shared_params) | ({'self', 'cls'} & self.params)
+        pos = a.posonlyargs + a.args
+        for p_, d_ in list(zip(pos[len(pos) - len(a.defaults):], a.defaults)) + [(p_, d_) for p_, d_ in zip(a.kwonlyargs, a.kw_defaults) if d_ is not None]:
+            if isinstance(d_, (ast.Dict, ast.List, ast.Set, ast.Call, ast.ListComp, ast.DictComp, ast.SetComp)):
+                self.shared_params.add(p_.arg)      # a mutable default is one object for all calls
+        self.stack = stack + (fi.key,)
+        self.globals_written = set()
+        for st in stmts_of(fi.node):
+            if isinstance(st, (ast.Global, ast.Nonlocal)):
+                self.globals_written.update(st.names)
+
+    # -- does the expression denote an object other activations see?
+    def level(self, e, at, depth=0):
+        if depth > 14 or e is None:
+            return FRESH
+        rec = lambda x, at_=at: self.level(x, at_, depth + 1)
+        if isinstance(e, ast.Name):
+            if e.id in self.shared_params or e.id in self.globals_written:
+                return SHARED
+            ds = self.fl.reaching(e.id, at) if e.id in self.fl.defs else []
+            if e.id in self.params and not [d for d in ds if d.kind != 'entry']:
+                return FRESH            # an argument of this request
+            if e.id not in self.fl.defs:
+                kind = self.cx.repo.resolve(self.fi.mod, e.id)[0] if e.id not in self.params else 'param'
+                return SHARED if kind in ('value', 'class') else FRESH
+            lv = FRESH
+            for d in ds:
+                if d.kind == 'assign':
+                    v, vat = self.fl.unpacked(d)
+                    if v is not None:
+                        lv = max(lv, self.level(v, vat, depth + 1))
+                elif d.kind == 'iter':
+                    lv = max(lv, SHARED if self.level(d.value, d.stmt, depth + 1) >= ELEMS else FRESH)
+                elif d.kind == 'with':
+                    lv = max(lv, self.level(d.value, d.stmt, depth + 1))
+            return lv
+        if isinstance(e, (ast.Attribute, ast.Subscript)):
+            return SHARED if rec(e.value) >= ELEMS else FRESH
+        if isinstance(e, ast.Starred):
+            return rec(e.value)
+        if isinstance(e, ast.NamedExpr):
+            return rec(e.value)
+        if isinstance(e, ast.BoolOp):
+            return max(rec(v) for v in e.values)
+        if isinstance(e, ast.IfExp):
+            return max(rec(e.body), rec(e.orelse))
+        if isinstance(e, (ast.List, ast.Tuple, ast.Set)):
+            return ELEMS if any(rec(x) == SHARED for x in e.elts) else FRESH
+        if isinstance(e, ast.Dict):
+            return ELEMS if any((rec(v) == SHARED) if k is not None else (rec(v) >= ELEMS) for k, v in zip(e.keys, e.values)) else FRESH
+        if isinstance(e, ast.Call):
+            f = e.func
+            fn = norm(f)
+            if fn == 'copy.deepcopy' or fn == 'deepcopy':
+                return FRESH
+            if fn == 'type' and len(e.args) == 1:
+                return SHARED if rec(e.args[0]) == SHARED else FRESH
+            if fn in ('getattr', 'next') and e.args:
+                return SHARED if rec(e.args[0]) >= ELEMS else FRESH
+            if fn in SHALLOW_COPIES or fn == 'copy':
+                held = any(rec(x) >= ELEMS for x in e.args) or any((rec(k.value) == SHARED) if k.arg is not None else (rec(k.value) >= ELEMS)
+                                                                   for k in e.keywords)
+                return ELEMS if held else FRESH
+            if isinstance(f, ast.Attribute) and f.attr in ELEMENT_OF:
+                return SHARED if rec(f.value) >= ELEMS else FRESH
+            if isinstance(f, ast.Attribute) and f.attr in VIEW_OF:
+                return ELEMS if rec(f.value) >= ELEMS else FRESH
+            callee = self._callee(e)
+            if callee is not None and callee.key not in self.stack and len(self.stack) < 3:
+                from ..effects import returns_fresh
+                if returns_fresh(self.cx.repo, callee):
+                    return FRESH
+                sub = _Activation(self.cx, callee, self._shared_args(callee, e, at), self.stack)
+                return max([sub.level(r.value, r) for r in returns_of(callee) if r.value is not None] or [FRESH])
+            return FRESH
+        return FRESH
+
+    def _callee(self, call):
+        from ..effects import callee_of
+        c = callee_of(self.cx.repo, self.fi, call)
+        return c if c is not None and c.mod is self.fi.mod else None
+
+    def _shared_args(self, callee, call, at):
+        """Parameters of ``callee`` that receive an object outliving this activation."""
+        ps = [p for p in callee.params() if p not in ('self', 'cls')]
+        out = set()
+        for i, a in enumerate(call.args):
+            if not isinstance(a, ast.Starred) and i < len(ps) and self.level(a, at) == SHARED:
+                out.add(ps[i])
+        for k in call.keywords:
+            if k.arg in ps and self.level(k.value, at) == SHARED:
+                out.add(k.arg)
+        return out
+
+    # -- does the value depend on the request being served?
+    def per_request(self, e, at, seen=None):
+        seen = set() if seen is None else seen
+        if e is None:
+            return False
+        for n in ast.walk(e):
+            if not (isinstance(n, ast.Name) and isinstance(n.ctx, ast.Load)):
+                continue
+            if n.id in self.params:
+                if n.id not in self.shared_params:
+                    return True
+                continue
+            for d in (self.fl.reaching(n.id, at) if n.id in self.fl.defs else []):
+                if d.stmt is None or (n.id, id(d.stmt)) in seen:
+                    continue
+                seen.add((n.id, id(d.stmt)))
+                src = d.value if d.value is not None else getattr(d.stmt, 'value', None)
+                if self.per_request(src, d.stmt, seen) or any(self.per_request(t, d.stmt, seen) for t, _ in self.fl.conds(d.stmt)):
+                    return True
+        return False
+
+    # -- the writes of this activation into objects that outlive it: [(node, object written, why it is a leak | None, activation)]
+    def shared_writes(self):
+        from ..effects import effects_in
+        mod, out = self.fi.mod, []
+        for ef in effects_in(self.fi.node):
+            at = ef.node if isinstance(ef.node, ast.stmt) else stmt_of(mod, ef.node)
+            if ef.kind == 'mutcall' or ef.method in ('setattr', 'delattr'):
+                obj = ef.target
+            else:
+                obj = ef.target.value
+            if self.level(obj, at) != SHARED:
+                continue
+            if ef.kind == 'mutcall':
+                operands = list(ef.node.args) + [k.value for k in ef.node.keywords]
+                idem = ef.method in IDEMPOTENT_CALLS
+            elif ef.method in ('setattr', 'delattr'):
+                operands, idem = list(ef.node.args[1:]), ef.method == 'setattr'
+            else:
+                operands = [getattr(ef.node, 'value', None) if not isinstance(ef.node, (ast.For, ast.AsyncFor)) else ef.node.iter]
+                if isinstance(ef.target, ast.Subscript):
+                    operands.append(ef.target.slice)
+                idem = isinstance(ef.node, (ast.Assign, ast.AnnAssign))
+            out.append((ef.node, obj, self._leak(operands, at, idem), self))
+        for st in stmts_of(self.fi.node):
+            tg = st.targets if isinstance(st, ast.Assign) else [st.target] if isinstance(st, (ast.AugAssign, ast.AnnAssign)) else []
+            for t in tg:
+                if isinstance(t, ast.Name) and t.id in self.globals_written:
+                    out.append((st, t, self._leak([st.value], st, isinstance(st, ast.Assign)), self))
+        # methods of the class the front-end did not dissolve into this one: their writes are this activation's writes
+        for c in walk_body(self.fi.node):
+            callee = self._callee(c) if isinstance(c, ast.Call) else None
+            if callee is None or callee.key in self.stack or len(self.stack) >= 3:
+                continue
+            sub = _Activation(self.cx, callee, self._shared_args(callee, c, stmt_of(mod, c)), self.stack)
+            out.extend(sub.shared_writes())
+        return out
+
+    def _leak(self, operands, at, idempotent):
+        if any(self.per_request(o, at) for o in operands if o is not None):
+            return 'a value of the request being served is stored'
+        if any(self.per_request(t, at) for t, _ in self.fl.conds(at)):
+            return 'whether it happens depends on the request being served'
+        if not idempotent:
+            return 'it accumulates over the requests served'
+        return None
+
+
+def rule_e(rep, cx):
+    ck, rq = cx.ck, cx.rq
+    rep.rule('R16.e', 'request() keeps what it learns from one request out of the objects that outlive it (middleware, class, module)')
+    act = _Activation(cx, rq)
+    writes = act.shared_writes()
+    seen = set()
+    for node, obj, leak, where in writes:
+        key = fkey(rq, 'shared write: %s' % norm(node))
+        if key in seen:
+            continue
+        seen.add(key)
+        what = _shared_name(where, obj, node)
+        if where is not act:
+            what += ' in %s()' % where.fi.name
+        rep.check('R16.e', key, leak is None,
+                  'write to %s does not depend on the request (a cache of configuration)' % what if leak is None else
+                  '%s writes to %s, an object every later request of every client shares, and %s: one client\'s cookie state '
+                  '(e.g. the expiry set by set_expires()) is applied to the cookies of all clients served afterwards'
+                  % (short(node, 70), what, leak), where.fi.mod, node)
+    saves = [c for c in walk_body(rq.node) if isinstance(c, ast.Call) and call_tail(c) == 'save_cookie']
+    if not any(w[2] is not None for w in writes):
+        rep.ok('R16.e', fkey(rq, 'per-request state'),
+               'every value derived from the request is stored in objects of this call only (%d write(s) to longer-lived objects, none '
+               'request-dependent); the options handed to save_cookie are built per call or only read' % len(writes), ck, saves[0] if saves else rq.node)
+
+
+def _shared_name(act, obj, node):
+    """Text naming the long-lived object a write goes to: the expression itself, and what a local alias stands for."""
+    txt = norm(obj)
+    if isinstance(obj, ast.Name) and obj.id not in act.shared_params:
+        at = node if isinstance(node, ast.stmt) else stmt_of(act.fi.mod, node)
+        src = [norm(lf.value) for lf in act.fl.leaves(obj, at) if not lf.opaque and act.level(lf.value, lf.stmt) == SHARED]
+        if src:
+            return '%s (= %s, not a copy)' % (txt, ' / '.join(sorted(set(src))))
+    return txt
